@@ -193,6 +193,10 @@ def _isolated(ctx, items, timeout=3600):
     r, w = ctx.Pipe(duplex=False)
     def target():
         try:
+            # everything inherited from the parent (the whole list of cases: 10^5 objects on the thorough tier) is long-lived:
+            # keep it out of the collections the harness runs after every evaluation (impl.run calls gc.collect())
+            import gc
+            gc.freeze()
             w.send(_chunk_worker(items))
         finally:
             w.close()
@@ -224,7 +228,9 @@ def run_cases(cases, workers=None, chunk=32):
     from concurrent.futures import ThreadPoolExecutor
     ctx = mp.get_context('fork')
     items = list(enumerate(cases))
-    cs = max(1, min(chunk, len(cases) // (workers * 4)))
+    # chunk size: small enough to keep every worker busy, large enough that starting a process (and its model driver, ≈ 0.5 s)
+    # per chunk stays negligible on the thorough tier's 10^5 cases
+    cs = max(1, min(max(chunk, len(cases) // (workers * 40)), len(cases) // (workers * 4)))
     chunks = [items[i:i + cs] for i in range(0, len(items), cs)]
     recs = [None] * len(items)
 
